@@ -210,6 +210,9 @@ def streams(ctx):
         out.append(('large:inv%d' % nitems, big))
         out.append(('large:getpeers+inv%d' % nitems, small_frames['getpeers'] + big))
         out.append(('large:inv%d+getpeers' % nitems, big + small_frames['getpeers']))
+    # many minimum-size frames arriving together (one read completes 16, 40, 300 frames)
+    for cnt in (16, 17, 40, 300):
+        out.append(('large:many%d-getpeers' % cnt, b''.join(frame(payload('getpeers', 100 + i)) for i in range(cnt))))
     # two multi-read frames back to back: the first one ends INSIDE a full-size read, under every alignment of the
     # node's 1024-byte reads (large_cuts adds all 1024 alignments for names starting with 'large:align')
     out.append(('large:align:inv150+inv150', frame(inv_of(150, 5)) + frame(inv_of(150, 6))))
@@ -229,6 +232,8 @@ def large_cuts(stream, all_alignments=False):
         starts.append(pos)
         pos += 8 + struct.unpack(">I", stream[pos + 4:pos + 8])[0]
     marks = set()
+    if len(starts) > 8:
+        starts = starts[:3] + starts[-2:]         # (a burst of many frames: boundaries of the first three and last two)
     for st in starts + [n]:
         for d in range(-2, 13):
             marks.add(st + d)
@@ -315,7 +320,7 @@ def run(ctx):
                 "bytewise, every 2-way cut (also with an empty read), every 3-way cut for streams <= %d bytes; through "
                 "MessageReceiver.receive and through ConnectedRemotePeer.handle_receive_data; frames of 5 KB / 71 KB (thorough: "
                 "1.1 MB) alone, first and last in a stream under 1024/4096/65536-byte reads and every single cut next to a frame "
-                "boundary, a power of two or the end; two multi-read frames back to back under every alignment of 1024-byte reads" % maxlen3,
+                "boundary, a power of two or the end; two multi-read frames back to back under every alignment of 1024-byte reads; 16 / 17 / 40 / 300 minimum-size frames in one burst" % maxlen3,
     })
 
 
